@@ -290,6 +290,14 @@ class LockModel(object):
         v = self.late_acquire(w, hist)
         if v:
             return v
+        # told "acquired" implies it holds the lock: at the instant the (timely) success is reported the client's own
+        # isAcquired says so too
+        if hist:
+            prev = self.cached(hist[:-1])
+            for c, op, lk, res, err, t in w.results[len(prev.results):]:
+                if op == 'acq' and res is True and err == 0 and not w.mgrs[c].isAcquired(lk):
+                    return core.Violation('C16 client %d is told tryAcquire(%r) succeeded but at that very instant its isAcquired(%r) is False '
+                                          '(history %r)' % (c, lk, lk, list(hist)), sig='told-acquired-not-held')
         # a client only ever holds what it asked for
         asked = set((ev[1], ev[2]) for ev in hist if ev[0] == 'acq')
         for lk in self.locks:
